@@ -110,6 +110,42 @@ impl Elem for EPop {
     }
 }
 
+/// Zero-width capable elements (only instantiated where the repetition is bounded).
+pub struct EOpt;
+impl Elem for EOpt {
+    type Node<'i> = Option<Str<A>>;
+    const NAME: &'static str = "\"a\"?";
+    fn model(input: &str, pos: usize, stk: &[String]) -> Option<(usize, Vec<String>)> {
+        if input[pos..].starts_with('a') {
+            Some((pos + 1, stk.to_vec()))
+        } else {
+            Some((pos, stk.to_vec()))
+        }
+    }
+}
+pub struct ENest0;
+impl Elem for ENest0 {
+    type Node<'i> = RepMinMax<Str<A>, Ig, 0, 0, 2>;
+    const NAME: &'static str = "\"a\"{0,2} (no skip)";
+    fn model(input: &str, pos: usize, stk: &[String]) -> Option<(usize, Vec<String>)> {
+        let r = &input[pos..];
+        let n = if r.starts_with("aa") { 2 } else if r.starts_with('a') { 1 } else { 0 };
+        Some((pos + n, stk.to_vec()))
+    }
+}
+pub struct EDrop;
+impl Elem for EDrop {
+    type Node<'i> = pest_typed::predefined_node::DROP;
+    const NAME: &'static str = "DROP";
+    fn model(_input: &str, pos: usize, stk: &[String]) -> Option<(usize, Vec<String>)> {
+        if stk.is_empty() {
+            None
+        } else {
+            Some((pos, stk[..stk.len() - 1].to_vec()))
+        }
+    }
+}
+
 /// Reference: greedy bounded repetition; `skip` = `" "*` before every iteration but the first,
 /// given back when the iteration fails.
 fn rep_model<E: Elem>(input: &str, init: &[String], skip: bool, min: usize, max: Option<usize>) -> Option<(usize, usize, Vec<String>)> {
@@ -130,8 +166,8 @@ fn rep_model<E: Elem>(input: &str, init: &[String], skip: bool, min: usize, max:
         }
         match E::model(input, p, &stk) {
             Some((p2, s2)) => {
-                if p2 == pos && s2 == stk {
-                    return None; // would never terminate; not instantiated here
+                if max.is_none() && p2 == pos && s2 == stk {
+                    return None; // an unbounded repetition would never terminate; not instantiated
                 }
                 pos = p2;
                 stk = s2;
@@ -394,6 +430,7 @@ fn skip_char<const N: usize>(inputs: &[String], rep: &mut Report) {
 }
 
 include!("c19_calls.rs");
+include!("c19_calls_zero.rs");
 
 pub fn run(o: &Opts) -> Report {
     let alpha = ['a', 'b', ' '];
@@ -403,6 +440,7 @@ pub fn run(o: &Opts) -> Report {
     inputs.extend(["é€a", "aé", "😀a a", "a é"].iter().map(|s| s.to_string()));
     let mut rep = Report::default();
     all(&inputs, &mut rep);
+    all_zero(&inputs, &mut rep);
     rep.max_len_done = n;
     rep
 }
